@@ -8,7 +8,7 @@
 PROP=$1; K=$2; shift 2; CHECKS=${*:-$PROP}
 SRC=/tmp/seed/$PROP/out/$K
 WT=/tmp/seedrun/$PROP-$K
-VS=/tmp/vs
+VS=/tmp/vs/$PROP-$K
 [ -f "$SRC/patch.diff" ] || { echo "no patch at $SRC"; exit 2; }
 rm -rf "$WT"; mkdir -p /tmp/seedrun
 git -C /repo worktree add -q --detach "$WT" HEAD || exit 2
@@ -36,4 +36,4 @@ cat > $DEST/meta.json <<META
  "ran": "fresh worktree of /repo HEAD + git apply patch.diff; pytest; demo.py; then 'VERIF_REPO=<worktree> ./check <id>' from a private copy of /verif (equivalent to git -C /repo apply + ./check + git checkout, without disturbing concurrent builds)",
  "checks": [${RES%,}]}
 META
-cd /; git -C /repo worktree remove --force "$WT"
+cd /; git -C /repo worktree remove --force "$WT"; rm -rf "$VS"
